@@ -4,7 +4,8 @@ stable_pass list passes.  Exit 0 iff all of them pass."""
 import json, re, subprocess, sys
 base = json.load(open("/root/.vp/BASELINE.json"))
 want = set(base["stable_pass"])
-p = subprocess.run("cd /repo && cargo test --workspace --no-fail-fast --offline 2>&1", shell=True, stdout=subprocess.PIPE, text=True)
+where = sys.argv[1] if len(sys.argv) > 1 else "/repo"
+p = subprocess.run("cd " + where + " && CARGO_TARGET_DIR=" + ("/tmp/fixwt/target" if where != "/repo" else "target") + " cargo test --workspace --no-fail-fast --offline 2>&1", shell=True, stdout=subprocess.PIPE, text=True)
 binname = None
 passed = set()
 for ln in p.stdout.split("\n"):
